@@ -175,6 +175,10 @@ func (h *H) round(A, B *Node, cfg roundCfg, seed uint64) {
 	if cfg.reverse {
 		connA = A.Proxy.Conns(0)[mA.conns-1]
 	}
+	waitUntil(time.Second, func() bool { return connB.Received() == connB.Pos() })
+	if connA != nil {
+		waitUntil(time.Second, func() bool { return connA.Received() == connA.Pos() })
+	}
 	recB0, _ := connB.Record()
 	var recA0 []byte
 	if connA != nil {
